@@ -1060,6 +1060,9 @@ class Engine:
             self.exec_block(s.orelse, env)
 
     def s_While(self, s, env):
+        rule = getattr(self, "while_rule", None)
+        if rule is not None:
+            return rule(self, s, env)
         n = 0
         while self.truth(self.eval(s.test, env)):
             n += 1
